@@ -491,11 +491,15 @@ class DefTag(Tag):
 
     def undeclared_identifiers(self):
         res = []
-        for c in self.function_decl.defaults:
+        decl = self.function_decl
+        # the defaults of keyword-only arguments read names as well; a name
+        # a default binds itself (a comprehension variable) is not read
+        for c in decl.defaults + [d for d in decl.kwdefaults if d is not None]:
+            code = ast.PythonCode(c, **self.exception_kwargs)
             res += list(
-                ast.PythonCode(
-                    c, **self.exception_kwargs
-                ).undeclared_identifiers
+                code.undeclared_identifiers.difference(
+                    code.declared_identifiers
+                )
             )
         return (
             set(res)
